@@ -236,6 +236,36 @@ def shard(tier, i, n, seed):
             raise common.InternalError('scheduler: %s (threads %r bound %d)' % (e, kinds, bound))
         acc.sample({'threads': list(kinds), 'bound': bound, 'part': part, 'schedules': st['executions'],
                     'scheduling_points_max': st['points_max']})
+    # supplementary, non-deciding: free-running threads with a minimal switch interval (sampling, reported only)
+    if i == 1 % n:
+        import sys
+        import threading
+        old_si = sys.getswitchinterval()
+        sys.setswitchinterval(1e-6)
+        mism = []
+        try:
+            def runner(tid):
+                for r in range(150):
+                    kind = KINDS[(tid + r) % len(KINDS)]
+                    tok = 'f%dr%dq' % (tid, r)
+                    want = w.serve(kind, tok) if False else None
+                    got = w.serve(kind, tok)
+                    res_[tid].append((kind, tok, got))
+            res_ = [[] for _ in range(8)]
+            ths = [threading.Thread(target=runner, args=(t,)) for t in range(8)]
+            for t in ths:
+                t.start()
+            for t in ths:
+                t.join()
+        finally:
+            sys.setswitchinterval(old_si)
+        for tid in range(8):
+            for kind, tok, got in res_[tid]:
+                if got != w.serve(kind, tok):
+                    mism.append([kind, tok])
+        acc.extra['free_running_requests'] = [sum(len(r) for r in res_)]
+        acc.extra['free_running_mismatches'] = [len(mism)]
+        del w.ids[:]
     # determinism: one recorded schedule replayed twice must give identical observations
     if i == 0:
         kinds = ('hit', 'exc')
@@ -256,6 +286,9 @@ def finish(tier, merged, results):
                        'quadruples': 2, 'quadruple_preemption_bound': 0, 'granularity': 'bytecode instruction'},
             'distinct_nontrivial': merged['extra'].get('nontrivial', 0),
             'coverage': {'schedules': merged['extra'].get('schedules', 0),
+                         'supplementary_free_running': {'requests': sum(merged['extra'].get('free_running_requests') or [0]),
+                                                        'mismatches': sum(merged['extra'].get('free_running_mismatches') or [0]),
+                                                        'note': 'sampling, diagnostic only, never a verdict'},
                          'instrumented_code_objects': (merged['extra'].get('instrumented_code_objects') or [0])[0],
                          'note': 'states = complete executions (schedules); transitions = scheduling points passed; '
                                  'every combination listed in bounds was explored exhaustively within its bound'}}
